@@ -106,6 +106,28 @@ func c06(c *Ctx) {
 			return ""
 		}
 		add("$.k.Add(0)", h.Obj("k", n.d), "receiver")
+		// typed slices and arrays of struct VALUES whose field is declared with the carrier's own type
+		// (int8, *int64, named …) or as `any`
+		for _, iface := range []bool{false, true} {
+			st := func() *D {
+				return &D{Tag: "st", Fs: []h.Field{{Name: "V", Exported: true, Iface: iface, V: n.d}, {Name: "W", Exported: true, V: h.Str("w")}}}
+			}
+			for ci, carrier := range []*D{h.TypedSlice(st(), st()), {Tag: "ar", Ety: "other", Xs: []*D{st(), st()}}} {
+				ec := c.AddEval("$.ts.V", h.Obj("ts", carrier), fmt.Sprintf("projected-typed-structs:%v:%d", iface, ci), false, nz)
+				ec.Check = func(o h.Outcome) string {
+					if o.Class != "ok" || o.Val.Tag != "sl" || len(o.Val.Xs) != 2 {
+						return "two collected values are required"
+					}
+					for _, x := range o.Val.Xs {
+						if x.Tag != "d" || ratCE(x.Coef, x.Exp).Cmp(want) != 0 {
+							return fmt.Sprintf("each collected value must be the decimal %s, got %s", want.RatString(), x.String())
+						}
+					}
+					return ""
+				}
+				add("$.ts.First().V", h.Obj("ts", carrier), "typed-structs-first")
+			}
+		}
 	}
 	// booleans and non-numeral strings are returned unchanged
 	for _, d := range []*D{h.Bool(true), h.Bool(false), h.Str("abc"), h.Str(""), h.Str("1x"), h.NStr("named")} {
